@@ -120,6 +120,10 @@ package transport
 //@   ensures [C05:fresh-id] old(c.nextQid) <= 65535 ==> err == nil && int(qid) == old(c.nextQid) && c.nextQid == old(c.nextQid) + 1
 //@             && !old(has(c.queue, uint32(qid))) && has(c.queue, uint32(qid)) && c.queue[uint32(qid)] == respChan
 //@   ensures [C05:others-kept] forallkey(k, c.queue, (err != nil || k != uint32(qid)) ==> (has(c.queue, k) == old(has(c.queue, k)) && c.queue[k] == old(c.queue[k])))
+//@   ghost nUnl int = 0
+//@   oncall Unlock?: nUnl = nUnl + 1
+//@   oncall RUnlock?: nUnl = nUnl + 1
+//@   ensures [C05:lock-released-on-every-path] nUnl == nAcq
 
 //@ func (c *pipelineConn) getQueueC(qid uint16) (ch chan<- *dnsmsg.Msg)
 //@   props C05
@@ -130,6 +134,10 @@ package transport
 //@   ensures [C05:one-critical-section] nAcq == 1
 //@   modifies nothing
 //@   ensures [C05:route-by-id] ch == c.queue[uint32(qid)]
+//@   ghost nUnl int = 0
+//@   oncall Unlock?: nUnl = nUnl + 1
+//@   oncall RUnlock?: nUnl = nUnl + 1
+//@   ensures [C05:lock-released-on-every-path] nUnl == nAcq
 
 // newPipelineConn: a new connection starts with an empty waiter table and wire ID 0 (the monitor invariant), is
 // live, and has exactly one reader - started on this very connection.
@@ -221,6 +229,10 @@ package transport
 //@   ensures [C05:ids-never-reissued] c.nextQid == old(c.nextQid)
 //@   ensures [C05:removed] !has(c.queue, uint32(qid))
 //@   ensures [C05:others-kept] forallkey(k, c.queue, k != uint32(qid) ==> (has(c.queue, k) == old(has(c.queue, k)) && c.queue[k] == old(c.queue[k])))
+//@   ghost nUnl int = 0
+//@   oncall Unlock?: nUnl = nUnl + 1
+//@   oncall RUnlock?: nUnl = nUnl + 1
+//@   ensures [C05:lock-released-on-every-path] nUnl == nAcq
 
 //@ func setQid(payload []byte, off int, qid uint16)
 //@   props C05 C01
@@ -416,6 +428,10 @@ package transport
 //@     modifies obj(t.idleConns), obj(t.conns), field(transport.reusableConn.serving)
 //@     invariant rtInv(t)
 //@     invariant forallkey(k, t.idleConns, has(t.idleConns, k) ==> loopOld(has(t.idleConns, k)))
+//@   ghost nUnl int = 0
+//@   oncall Unlock?: nUnl = nUnl + 1
+//@   oncall RUnlock?: nUnl = nUnl + 1
+//@   ensures [C06:lock-released-on-every-path] nUnl == nAcq
 
 //@ func newReusableConn(c net.Conn, idleTimeout time.Duration) (rc *reusableConn)
 //@   props C06
